@@ -110,3 +110,21 @@ Example C20_nonvacuous :
   /\ expand_program defs (fun _ => true) [IGate (G 5 [] [QFixed 0] [])]%N = Err (ECycle [5%N])
   /\ expand_program defs (fun _ => true) [IGate (G 1 [] [QFixed 0] [])]%N = Err (EParamCount 1 0).
 Proof. vm_compute. repeat split; reflexivity. Qed.
+
+(** After a successful expansion no selected sequence invocation is left: every instruction of the
+    output is one the expansion leaves alone, so expanding again changes nothing. *)
+Theorem C20_nothing_selected_remains :
+  forall (defs : list gdef) (sel : name -> bool) (l out : list instr),
+    expand_program defs sel l = Ok out ->
+    Forall (Untouched defs sel) out /\ expand_program defs sel out = Ok out.
+Proof.
+  intros defs sel l out H. split.
+  - apply expand_program_iff in H. eapply SeqExpands_untouched; eauto.
+  - eapply expand_idempotent; eauto.
+Qed.
+
+(** The specification determines the output (it is a function of definitions, filter and body). *)
+Theorem C20_expansion_deterministic :
+  forall (defs : list gdef) (sel : name -> bool) (l out out' : list instr),
+    SeqExpands defs sel [] l out -> SeqExpands defs sel [] l out' -> out = out'.
+Proof. intros defs sel l out out'. apply SeqExpands_fun. apply StackOK_nil. Qed.
